@@ -1043,3 +1043,29 @@ Lemma civil_epoch : civil_seconds [49;57;55;48;48;49;48;49] = Some 0.
 Proof. vm_compute. reflexivity. Qed.
 Lemma civil_T0 : civil_seconds [50;48;50;51;49;49;49;52;50;50;49;51;50;48] = Some 1700000000.
 Proof. vm_compute. reflexivity. Qed.
+
+(* ------------------------------------------------------------------------------------------ *)
+(* the SSHSIG signed data depends only on the message bytes, not on how they are supplied *)
+Lemma signed_data_src_bytes hash s s' hname nsb :
+  source_bytes s = source_bytes s' ->
+  signed_data_src hash s false hname nsb = signed_data_src hash s' false hname nsb.
+Proof. destruct s, s'; simpl; intros ->; reflexivity. Qed.
+
+Lemma signed_data_path_chunking hash chunks chunks' ih ih' hname nsb :
+  concat chunks = concat chunks' ->
+  signed_data_src hash (MPath chunks) ih hname nsb = signed_data_src hash (MPath chunks') ih' hname nsb.
+Proof. simpl. intros ->. reflexivity. Qed.
+
+(* principal / namespace patterns: a pattern without '*' and '?' matches exactly itself (every code
+   point compared as is: matching is case-sensitive, no folding, no trimming) *)
+Lemma wmatch_literal p : (forall c, In c p -> c <> 42 /\ c <> 63) -> forall s, wmatch p s = true <-> p = s.
+Proof.
+  induction p as [|c p IH]; intros Hlit s.
+  - simpl. destruct s; split; intros H; try reflexivity; discriminate.
+  - assert (Hc : c <> 42 /\ c <> 63) by (apply Hlit; left; reflexivity).
+    assert (Hp : forall x, In x p -> x <> 42 /\ x <> 63) by (intros x Hx; apply Hlit; right; exact Hx).
+    cbn [wmatch]. destruct (c =? 42) eqn:E42; [apply Z.eqb_eq in E42; tauto|].
+    destruct s as [|x s']; [split; intros H; discriminate|].
+    destruct (c =? 63) eqn:E63; [apply Z.eqb_eq in E63; tauto|]. cbn [orb].
+    rewrite andb_true_iff, Z.eqb_eq, (IH Hp s'). split; [intros [-> ->]; reflexivity | intros H; inversion H; auto].
+Qed.
